@@ -54,6 +54,17 @@ def _sibling_candidates(rng, recipe):
             out.append(("%s.%s+1" % (o, k), mod(**{k: op.get(k, 1) + 1})))
         if o == "repartition" and op.get("npartitions"):
             out.append(("repartition.npartitions+1", mod(npartitions=op["npartitions"] + 1)))
+        if o == "repartition" and op.get("partition_size"):
+            out.append(("repartition.partition_size", mod(partition_size={"200B": "100B", "500B": "200B", "1kiB": "300B", "4kiB": "500B"}.get(op["partition_size"], "150B"))))
+        if o == "reduce" and op.get("fn") in ("var", "std"):
+            out.append(("reduce ddof", mod(ddof={0: 1, 1: 0, 2: 1}.get(op.get("ddof", 1), 0))))
+        if op.get("knob_names"):
+            kn = dict(op.get("knobs") or {})
+            name = rng.choice(op["knob_names"])
+            space = [v for v in W.knob_space_default().get(name, []) if v != kn.get(name)]
+            if space:
+                kn[name] = rng.choice(space)
+                out.append(("knob %s of %s" % (name, o), mod(knobs=kn)))
         if o == "series_map" and "value" in op:
             out.append(("series_map.value int->float", mod(value=float(op["value"]))))
             out.append(("series_map.value+1", mod(value=op["value"] + 1)))
@@ -249,6 +260,30 @@ def _execute(spec, ses):
             return _done(_v(kind, "%s:%s" % (sib["what"].split(" ")[0], ",".join(shared[:2])),
                             "sibling (%s) built after its original returns another answer than alone (%s); shared names at stages %s" % (sib["what"], why, shared)),
                          ses, counters, spec)
+        # both queries inside one graph: every task key they share must denote the same task
+        if base_obs is None:
+            r0 = pristine.call_eval(hs, {"kind": "recipe", "recipe": recipe, "targets": [t], "use_knobs": True, "want": ["result"], "uuid_shim": False})
+            base_obs = r0.get("descs", {}).get(str(t), {}).get("result")
+        if isinstance(base_obs, dict) and "rows" in base_obs:
+            import dask
+
+            def both(sch, a=pool1[t], b=sc):
+                return dask.compute(a.optimize(), b.optimize(), scheduler=sch.get)
+
+            from sim.fingerprint import observe as _obs
+
+            jo = ses.run(both, refw, monitor=False, observe_fn=lambda v: [_obs(x, labels=d.get("labels", "defined") == "defined", order=d.get("order", "open") == "defined") for x in v])
+            counters["joint_computes"] = counters.get("joint_computes", 0) + 1
+            if jo.cls == "ok":
+                for which, want, got in (("original", base_obs, jo.obs[0]), ("sibling", a, jo.obs[1])):
+                    eqj, whyj = obs_equal(want, got)
+                    if not eqj:
+                        return _done(_v("key_collision_in_joint_graph", "%s:%s" % (sib["what"].split(" ")[0], which),
+                                        "computing a query and its sibling (%s) in one graph changes the %s's answer: %s" % (sib["what"], which, whyj)),
+                                     ses, counters, spec)
+            elif jo.cls == "internal":
+                return _done(_v("key_collision_in_joint_graph", "%s:fails:%s" % (sib["what"].split(" ")[0], exc_signature(jo.exc) if jo.exc else jo.cls),
+                                "computing a query and its sibling (%s) in one graph fails: %s" % (sib["what"], jo.detail)), ses, counters, spec)
         if shared:
             # same name: must be the same query
             if base_obs is None:
